@@ -20,6 +20,7 @@ structure Ev where
 inductive In
   | ev (e : Ev)
   | reply             -- ADD_ONION / SETCONF answered: the service's address becomes known
+  | lost              -- the control connection is lost: no further event can arrive
   deriving DecidableEq, Repr
 
 inductive Outcome
@@ -71,6 +72,7 @@ def hsDesc (s : St) (e : Ev) : St :=
 def step (s : St) : In → St
   | .reply => { s with known := true }
   | .ev e => if s.subscribed then hsDesc s e else s     -- unsubscribed: the listener is not called
+  | .lost => if s.fired.isSome then s else { s with fired := some .fail, subscribed := false }
 
 def run (s : St) (h : List In) : St := h.foldl step s
 
